@@ -527,7 +527,7 @@ def stroke_obs_term(dump):
 # ---- gradient stops
 def gen_offsets(rng):
     n = rng.choice([0, 1, 2, 2, 3, 3, 4, 5, 6, 8])
-    base = [0.0, 0.0, 0.1, 0.25, 0.5, 0.5, 0.7, 1.0, 1.0, -0.5, 1.5, 1e-9, 0.3, 0.9999999, 0.05]
+    base = [0.0, 0.0, 0.1, 0.25, 0.5, 0.5, 0.7, 1.0, 1.0, -0.5, 1.5, 1e-9, 0.3, 0.9999999, 0.05, 1e300, -1e300]
     out = []
     for _ in range(n):
         r = rng.below(10)
@@ -564,7 +564,7 @@ def grad_doc(c):
 
 
 def grad_in_term(c):
-    offs = 'None' if not c['offs'] else '(Some [%s])' % ';'.join(xnum_f(to_f32(v)) for _, v in c['offs'])
+    offs = 'None' if not c['offs'] else '(Some [%s])' % ';'.join(xnum_f(to_f32(min(1.0, max(0.0, v)))) for _, v in c['offs'])   # clamped as f64, then narrowed
     if not c['radial']:
         rr = 'None'
     elif c['r'] is None:
